@@ -123,6 +123,20 @@ def cases(tier, seed):
                                         'model': model, 'solver': solver, 'method': 'RK45' if solver == 'scipy' else None,
                                         'backend': backend, 'vectorize': backend not in ('default', 'fortran'),
                                         'ragged_T': True})
+    # T that is not even a multiple of the step: round(T/dt) steps, round(T/dts) rows at k*dts
+    for model in ('decay', 'nonlin'):
+        for mult in (1, 2, 5):
+            for n in (2, 3):
+                for frac in (0.25, 0.5, 0.75):
+                    for j in range(mult):
+                        for solver in ('euler', 'heun', 'scipy'):
+                            if solver == 'scipy' and model != 'decay':
+                                continue
+                            dt = 0.0625
+                            out.append({'dt': dt, 'dts': dt * mult, 'T': dt * (mult * n + j + frac), 'cutoff': 0.0,
+                                        'cut': 'zero', 'model': model, 'solver': solver,
+                                        'method': 'RK45' if solver == 'scipy' else None, 'backend': 'default',
+                                        'vectorize': False, 'ragged_T': 'frac'})
     # adaptive solvers against closed forms (incl. the time-dependent model)
     for model in ('decay', 'rot', 'edge', 'tdep', 'inp'):
         for method in ('RK45', 'DOP853', 'Radau') if tier != 'quick' else ('RK45', 'DOP853'):
@@ -164,7 +178,7 @@ def cases(tier, seed):
 def describe(tier, seed):
     return {'rule': 'full lattice model{decay,rot,edge,inp,nonlin,tdep} x solver{euler,heun} x dt x dts/dt{1,2,5} x T/dts{3,4,7} '
                     'x cutoff{0,on-grid,between,last,beyond} on binary-fraction grids (default backend), slices for '
-                    'scipy methods, torch and jax solvers, a complex-valued rotation per backend and solver; oracle: own Euler/Heun loop over the get_run_func vector field '
+                    'scipy methods, torch and jax solvers, a complex-valued rotation per backend and solver, every remainder of T modulo the sampling step (T = n*dts + j*dt, j < dts/dt in {2,3,5}) on every backend and T off the step grid (+0.25/0.5/0.75 dt); oracle: own Euler/Heun loop over the get_run_func vector field '
                     'of an identically built template (exact to 1e-12), closed forms for adaptive solvers; '
                     'non-trivial = at least one stored row after the first; distinct = distinct configuration',
             'bounds': {'rows': 7, 'dts_over_dt': 5}}
